@@ -80,7 +80,7 @@ def h_infiltration(ctx, cfg):
     if bunds:
         ctx.prove("C03:ponding <= bund height", ssn <= zb + 1e-12)
     else:
-        ctx.prove("C03:no bunds => no ponding", approx(ssn, 0, 1e-12))
+        ctx.prove("C02,C03:no bunds => nothing stays ponded (ponded water is released once)", approx(ssn, 0, 1e-12))
     ctx.prove("C03:th<=th_s after infiltration", And(*[thn[i] <= float(base.th_s[i]) + 1e-12 for i in range(n)]))
     ctx.prove("C03:th not lowered by infiltration", And(*[thn[i] >= th0[i] - 1e-12 for i in range(n)]))
     ctx.prove("C12:infiltration leaves its input th untouched", And(*[a == b for a, b in zip(list(th), th0)]))
